@@ -354,6 +354,26 @@ fn may_write(op: &Op, u: usize, side: Side, directed: bool) -> bool {
     }
 }
 
+/// the ordered (directed) or unordered pair of nodes whose edges alone decide the answer
+fn pair_read(op: &Op, directed: bool) -> Option<(usize, usize)> {
+    match op {
+        Op::IsConnected { u, k } | Op::FindOut { u, k } => Some((*u, *k)),
+        Op::FindIn { u, k } => Some(if directed { (*k, *u) } else { (*u, *k) }),
+        _ => None,
+    }
+}
+
+/// may this mutating call add or remove an edge from `a` to `b` (directed) or between them?
+fn may_write_pair(op: &Op, a: usize, b: usize, directed: bool) -> bool {
+    let same = |x: usize, y: usize| (x == a && y == b) || (!directed && x == b && y == a);
+    match op {
+        Op::Isolate { u, .. } => *u == a || *u == b,
+        Op::Connect { u, v, .. } | Op::TryConnect { u, v, .. } => same(*u, *v),
+        Op::Disconnect { u, k, .. } => same(*u, *k),
+        _ => false,
+    }
+}
+
 /// A query whose answer depends only on lists that no call of another task can change has one
 /// possible answer in every sequential order of the calls: the one after the task's own earlier
 /// calls. (Multi-step updates of other tasks cannot excuse a different answer: they do not touch
@@ -406,11 +426,85 @@ fn read_consistency(sc: &ConcSc, m0: &Model, results: &[Vec<Obs>], stats: &mut S
                 }
                 continue;
             }
+            if let Op::GView { kind } = op {
+                let own_isolates = script[..i].iter().any(|o| matches!(o, Op::Isolate { .. }));
+                if !own_ok || own_isolates {
+                    continue;
+                }
+                let writes = |u: usize, side: Side| sc.tasks.iter().enumerate().any(|(t2, s2)| t2 != t && s2.iter().any(|o| o.is_mutation() && may_write(o, u, side, directed)));
+                let mut bad = None;
+                match (kind % 9, obs) {
+                    // the container itself is never changed in these scenarios
+                    (3 | 8, Obs::Keys(k)) => {
+                        stats.inc("container_views_checked");
+                        if *k != (0..own.n).collect::<Vec<_>>() {
+                            bad = Some(format!("listed the members {k:?}, the container holds 0..{}", own.n));
+                        }
+                    }
+                    (0..=2, Obs::Keys(k)) => {
+                        for u in 0..own.n {
+                            let side = match (directed, kind % 9) {
+                                (true, 0) => Side::In,
+                                (true, 1) => Side::Out,
+                                _ => Side::Both,
+                            };
+                            if writes(u, side) {
+                                continue;
+                            }
+                            stats.inc("container_views_checked");
+                            let expect = match side {
+                                Side::In => own.inn(u).is_empty(),
+                                Side::Out => own.out(u).is_empty(),
+                                Side::Both => own.incident(u) == 0,
+                            };
+                            if k.contains(&u) != expect {
+                                bad = Some(format!(
+                                    "{} node {u} in {k:?}, although no call of another task can change the lists that decide it",
+                                    if expect { "omitted" } else { "listed" }
+                                ));
+                            }
+                        }
+                    }
+                    (6, Obs::Edges(es)) => {
+                        for u in 0..own.n {
+                            if writes(u, if directed { Side::Out } else { Side::Both }) {
+                                continue;
+                            }
+                            stats.inc("container_views_checked");
+                            let listed: Vec<(usize, u64)> = es.iter().filter(|e| e.0 == u).map(|e| (e.1, e.2)).collect();
+                            if listed != own.out(u) {
+                                bad = Some(format!(
+                                    "serialised the edges {listed:?} created from node {u}, sequential value {:?}, although no call of another task can change that node's list",
+                                    own.out(u)
+                                ));
+                            }
+                        }
+                    }
+                    (6, Obs::Text(t)) => bad = Some(format!("serialisation did not produce a graph document: {t}")),
+                    _ => {}
+                }
+                if let Some(b) = bad {
+                    return Some(Violation::new("read-inconsistent:container_view", format!("t{t} call #{i} {op:?}: {b}")));
+                }
+                continue;
+            }
             let Some((u, side)) = read_set(op, directed) else { continue };
             if u >= own.n {
                 continue;
             }
-            let others_write = sc.tasks.iter().enumerate().any(|(t2, s2)| t2 != t && s2.iter().any(|o| o.is_mutation() && may_write(o, u, side, directed)));
+            // a lookup of one neighbour takes the lock once and depends only on the edges between
+            // the two nodes: calls of other tasks on other pairs keep the lock busy and reshuffle
+            // the list but cannot change the answer
+            let others_write = match pair_read(op, directed) {
+                Some((a, b)) => {
+                    let w = sc.tasks.iter().enumerate().any(|(t2, s2)| t2 != t && s2.iter().any(|o| o.is_mutation() && may_write_pair(o, a, b, directed)));
+                    if !w {
+                        stats.inc("reads_of_one_pair_no_other_task_writes_checked");
+                    }
+                    w
+                }
+                None => sc.tasks.iter().enumerate().any(|(t2, s2)| t2 != t && s2.iter().any(|o| o.is_mutation() && may_write(o, u, side, directed))),
+            };
             // own calls whose effect on these lists depends on lists others write (isolate of a
             // neighbour, ...) are not modelled here
             let own_isolates = script[..i].iter().any(|o| matches!(o, Op::Isolate { .. }));
